@@ -38,6 +38,10 @@ CLAIMED = {
              "size rows (flat = H + N*BL, cursor size = c - begin); generated size_bytes(...) traits equal the model's polynomial "
              "with the documented parameter list.", "DESIGN.md 3/C05", TB + "Numeric equality on concrete messages not decided.",
              "interval arithmetic over C++ conversion rules (R-INT) + E2 rows + E4 polynomial comparison"),
+    "C06": E("other", "Read-before-validate over all E2 paths of size_bytes_checked for the corpus messages (no-assert configuration), "
+             "exactness on loop-free valid paths, rows of validate_and_subtract and of the visitor callbacks, structural work bound.",
+             "DESIGN.md 3/C06", TB + "Reads inside entry loops are undecided (counted); 'valid exactly when' over all buffers not decided. "
+             "Known findings D10 (replayed with ASan).", "path-sensitive affine/effect dataflow with accounting facts (read-before-validate)"),
     "C07": E("other", "Rule families over the generator for all schemas (template binding, free text into literals, literal tables, "
              "keyword table, name capture) plus standalone compilation of every generated header and a model-generated "
              "touch-everything TU for 24 schemas.", "DESIGN.md 3/C07",
@@ -62,6 +66,13 @@ CLAIMED = {
     "C12": E("other", "Affine rows for group bases / iterators / cursor ranges for all 16 dimension pairs (laws hold as algebra over "
              "the rows) plus R-INT on every pointer-offset computation and difference_type conversion.", "DESIGN.md 3/C12",
              TB + "Known findings: narrow difference_type (D16).", "spec rows over E2 summaries + interval arithmetic (R-INT)"),
+    "C13": E("other", "Only per-operation clauses are decided (the vector-model equivalence over operation sequences is a property of "
+             "histories, not applicable to this family): exact write footprint, new length, returned iterator and precondition "
+             "strictness of every <data> mutator for all length types / byte orders / element types of the corpus.",
+             "DESIGN.md 3/C13", TB + "Sequences of operations are not explored.", "spec rows over path-sensitive affine/effect summaries (E2)"),
+    "C14": E("other", "Exact write footprints, padding per eos mode, returned iterators, precondition strictness, strlen/strlen_r scan "
+             "ranges for every array length of the corpus (incl. 0 and 1).", "DESIGN.md 3/C14",
+             TB + "Contents for all inputs follow from the trusted std-algorithm summaries.", "spec rows over E2 summaries"),
     "C15": E("other", "Shift rule (operand at least as wide as T, unsigned at T's width), mask algebra rows of get_bit/set_bit, "
              "generated choice accessors pass the XML index.", "DESIGN.md 3/C15", TB, "R-INT shift rule + E2 mask rows + E4"),
     "C16": E("other", "Generator default min/max/null tables equal the library constants (compile witnesses over constants); "
